@@ -23,7 +23,7 @@ theorem getId_inv {cfg : Cfg} {db db' : Db} {req : Req} {now : Nat} {ch : GetCho
   | block hb =>
     cases hb with
     | hit r hr hd hf hid hdb => subst hdb; exact inv_setAtime hinv hs _ _
-    | recycled v hmiss henum hv hid hold hset => exact inv_setId hinv hset
+    | recycled v hmiss henum hv hid hold hwhy hset => exact inv_setId hinv hset
     | fresh hmiss henum hcount hall hfree hset => exact inv_setId hinv hset
   | sampled hmiss henum hcl hmem hfree hset => exact inv_setId (cleanups_inv hcl hs hinv) hset
   | exhausted hmiss henum hcl => exact cleanups_inv hcl hs hinv
@@ -118,7 +118,7 @@ theorem getId_member_of_inv {cfg : Cfg} {db db' : Db} {req : Req} {now id : Nat}
   | block hb =>
     cases hb with
     | hit r hr hd hf hid hdb => rw [← hid]; exact member_of_row hinv hs hu hr hf
-    | recycled v hmiss henum hv hid hold hset =>
+    | recycled v hmiss henum hv hid hold hwhy hset =>
       obtain ⟨hvt, hf⟩ := mem_inSub.1 hv
       rw [← hid]; exact member_of_row hinv hs hu hvt hf
     | fresh hmiss henum hcount hall hfree hset => exact (mem_allIds_iff_member hs hu _).1 hall
